@@ -266,6 +266,11 @@ class E1:
             if p.base == "dst": path.stores[p.off + k] = byte
             else: path.mem[(p.base, p.off + k)] = byte
 
+    def _canon(self, t, path):
+        from .slices import canonical_term
+        try: return canonical_term(t, path.lo, path.hi)
+        except Exception: return None
+
     def split(self, t, pred, c, path):
         """partition [lo,hi] into (sub-interval, truth) pieces for condition  t <pred> c  (c constant)"""
         lo, hi = path.lo, path.hi
@@ -403,7 +408,25 @@ class E1:
                 elif t[0] == "or" and (t[2] >> (sb - 1)) & 1:
                     # the sign bit is set by construction (a continuation flag or-ed in): the extension fills the upper bits with ones
                     env[i.id] = norm(("or", t, ((1 << bits) - 1) & ~((1 << sb) - 1)), path.lo, path.hi)
-                else: raise Unsupported("sext of possibly negative term")
+                elif not monotone(t, path.lo, path.hi) and self._canon(t, path) is not None:
+                    # a re-assembly of byte slices that is just x (or x - a) again: extend that
+                    t = self._canon(t, path)
+                    pieces = self.split(t, "uge", 1 << (sb - 1), path)
+                    for (pa, pb, neg) in pieces:
+                        p2 = path.fork(pa, pb); env2 = self.renorm(env, pa, pb); t2 = norm(t, pa, pb)
+                        env2[i.id] = norm(("add", t2, ((1 << bits) - (1 << sb)), bits), pa, pb) if neg else t2
+                        yield from self.rest(fn, b, i.idx + 1, env2, args, p2)
+                    return
+                elif monotone(t, path.lo, path.hi):
+                    # the sign bit is set on the upper part of the interval only: below the boundary the value is kept, above it the
+                    # extension fills the upper bits with ones (this is how `(ptr)[4] << 24` as an int turns into 0xffffffff........)
+                    pieces = self.split(t, "uge", 1 << (sb - 1), path)
+                    for (pa, pb, neg) in pieces:
+                        p2 = path.fork(pa, pb); env2 = self.renorm(env, pa, pb); t2 = norm(t, pa, pb)
+                        env2[i.id] = norm(("add", t2, ((1 << bits) - (1 << sb)), bits), pa, pb) if neg else t2
+                        yield from self.rest(fn, b, i.idx + 1, env2, args, p2)
+                    return
+                else: raise Unsupported("sext of possibly negative term %s on [%d, %d]" % (show(t)[:200], path.lo, path.hi))
             elif op == "trunc": env[i.id] = norm(("and", V(0), (1 << bits) - 1), path.lo, path.hi)
             elif op in ("bitcast",): env[i.id] = V(0)
             elif op == "alloca":
